@@ -20,6 +20,7 @@ type GenOptions struct {
 	NoDevices     bool  // no device nodes
 	NoSpaceNames  bool  // no names containing a space
 	ModerateTimes bool  // mtimes in [1 ns, 2^63 ns) only (no pre-1970 and post-2262 values)
+	EpochTimes    bool  // about one node in 25 gets an mtime of exactly the Unix epoch
 	Specials      bool  // also fifos and sockets
 }
 
@@ -115,6 +116,9 @@ func genAttrs(t *rapid.T, s *Spec, o *GenOptions) {
 	default:
 		s.Sec = rapid.Int64Range(MinSec, MaxSec).Draw(t, "secx")
 		s.Nsec = rapid.Int64Range(0, 999_999_999).Draw(t, "nsec")
+	}
+	if o.EpochTimes && rapid.IntRange(0, 24).Draw(t, "epoch") == 0 {
+		s.Epoch = true
 	}
 	if o.NoXattrs || rapid.IntRange(0, 3).Draw(t, "hasx") != 0 {
 		return
